@@ -4,63 +4,15 @@ import PGA.Props.C19
 import PGA.Proofs.EstimateUQ
 import PGA.Proofs.DiagDominant
 import PGA.Proofs.SchemeUnion
-import PGA.Model.Pipeline
+import PGA.Spec.Pipeline
 import Mathlib.Algebra.BigOperators.Group.Finset.Basic
 /-! Helper lemmas for the pipeline theorems (`Props/Pipeline.lean`): what an estimate sees of a dictionary of counts. -/
 namespace PGA.Estimate
 
-/-! ### the outcome of `Estimate`, stage by stage -/
-
-/-- which stage of `GroupLibrary.Estimate` / `ThermochemGroupAdditive.__init__` raised -/
-inductive EstKind where
-  | invalidSet | missing | keyError | notInBasis | shape | emptyRange
-  deriving DecidableEq, Repr
-
-def estKind {N : Type} : EstErr N → EstKind
-  | .invalidSet => .invalidSet
-  | .missing _ => .missing
-  | .keyError => .keyError
-  | .notInBasis _ => .notInBasis
-  | .shape => .shape
-  | .emptyRange => .emptyRange
-
-/-- `none` = an estimate was returned -/
-def kindOf {N : Type} : Except (EstErr N) Estimator → Option EstKind
-  | .ok _ => none
-  | .error e => some (estKind e)
-
-/-- the range assertion, from the terms -/
-def rangeKind (cs : List (Corr × Rat)) : Option EstKind :=
-  match commonRange cs with
-  | none => none
-  | some (lo, hi) => if lo ≤ hi then none else some .emptyRange
+/-! ### the outcome of `Estimate`, stage by stage: `estimate` goes the way `outcomeKind` says -/
 
 section
 variable {N S : Type} [DecidableEq N] [DecidableEq S]
-
-/-- the terms an estimate of the mapping holds (where every descriptor has the property set) -/
-def termsOf (lib : Library N S) (s : S) (gs : List (N × Rat)) : List (Corr × Rat) :=
-  gs.map fun g => (corrD lib s g.1, g.2)
-
-/-- the uncertainty block: every descriptor must be in the basis, then the matrix must fit -/
-def uqKind (lib : Library N S) (gs : List (N × Rat)) : Option EstKind :=
-  match lib.uq with
-  | none => none
-  | some u =>
-    if gs.all (fun g => decide (g.1 ∈ u.basis)) then
-      (if shapeOK u.basis.length u.mat then none else some .shape)
-    else some .notInBasis
-
-/-- **Which way `Estimate` goes**, written from data that do not depend on the order of the mapping: the registry, the
-set of descriptors without data, membership in the uncertainty basis, the matrix shape, the common range. -/
-def outcomeKind (reg : List S) (lib : Library N S) (gs : List (N × Rat)) (s : S) : Option EstKind :=
-  if reg.contains s then
-    if (specMissing lib s gs).isEmpty then
-      match uqKind lib gs with
-      | some k => some k
-      | none => rangeKind (termsOf lib s gs)
-    else some .missing
-  else some .invalidSet
 
 theorem placeX_kind (basis : List N) (gs : List (N × Rat)) (x : List Rat) :
     (∃ y, placeX basis gs x = .ok y) ∧ gs.all (fun g => decide (g.1 ∈ basis)) = true ∨
@@ -403,21 +355,6 @@ theorem estimate_range (reg : List String) (lib : Lib) (c : Counts) (s : String)
   have := terms_eq_map lib s c _ (collect_ok lib s c _ h1)
   exact ⟨by rw [h3, this]; rfl, this⟩
 
-/-- How the outcomes of the parts combine (precedence of the stages of `Estimate`); `r` = what the range assertion says of
-the intersection of the parts' common ranges. -/
-def mixKind (kA kB : Option EstKind) (r : Option EstKind) : Option EstKind :=
-  if kA = some .invalidSet ∨ kB = some .invalidSet then some .invalidSet
-  else if kA = some .missing ∨ kB = some .missing then some .missing
-  else if kA = some .notInBasis ∨ kB = some .notInBasis then some .notInBasis
-  else if kA = some .shape ∨ kB = some .shape then some .shape
-  else r
-
-/-- the range assertion on an already computed common range -/
-def rangeKindOf (r : Option (Rat × Rat)) : Option EstKind :=
-  match r with
-  | none => none
-  | some (lo, hi) => if lo ≤ hi then none else some .emptyRange
-
 theorem rangeKind_eq (cs : List (Corr × Rat)) : rangeKind cs = rangeKindOf (commonRange cs) := rfl
 
 theorem rangeKindOf_cases (r : Option (Rat × Rat)) : rangeKindOf r = none ∨ rangeKindOf r = some .emptyRange := by
@@ -475,13 +412,6 @@ theorem specX_counts (basis : List String) (c : Counts) : specX basis c = basis.
   apply List.map_congr_left
   intro b _
   exact counts_lookup_get c b
-
-/-- `xᵀ M y`, `M` given by rows -/
-def specBilin (M : List (List Rat)) (x y : List Rat) : Rat :=
-  (List.zipWith (fun xi row => xi * specDot row y) x M).sum
-
-/-- entrywise sum of two vectors -/
-def vplus (x y : List Rat) : List Rat := List.zipWith (· + ·) x y
 
 theorem specQuad_eq_bilin (M : List (List Rat)) (x : List Rat) : specQuad M x = specBilin M x x := rfl
 
@@ -605,9 +535,6 @@ theorem wsum_union (get : Corr → Val) (reg : List String) (lib : Lib) (s : Str
     exact ⟨fun k hk' => ((hk k).mp hk').elim (h1 k) (h2 k), rfl⟩
 
 /-! ### the library's record of the decomposed molecule only names the estimate -/
-
-/-- the estimate with another molecule on record -/
-def withName (nm : Option (List Nat)) (e : Estimator) : Estimator := { e with name := nm }
 
 theorem collect_withName (lib : Lib) (nm : Option (List Nat)) (gs : List (String × Rat)) (s : String) :
     collect ({ lib with name := nm } : Lib) s gs = collect lib s gs := by
@@ -763,12 +690,6 @@ theorem loadDescs_lookup (src : List (String × α)) (acc cont : List (String ×
       intro k v hk
       apply ih _ h
       rw [lookup_append_single, hk]
-
-/-- two spellings of the same entries: entry by entry the same data, the same centre, well-formed runs denoting the same
-multiset of peripherals (any order of the peripherals, any split into runs, counts written or not) -/
-def SameSpelling (src src' : List (Name × α)) : Prop :=
-  List.Forall₂ (fun p p' => p'.2 = p.2 ∧ ∃ c r r', p.1 = spell c r ∧ p'.1 = spell c r' ∧ WFRuns c r ∧ WFRuns c r' ∧
-    (expandRuns r).Perm (expandRuns r')) src src'
 
 theorem loadGroups_sameSpelling (src src' : List (Name × α)) (h : SameSpelling src src') (acc : List (String × α)) :
     loadGroups src' acc = loadGroups src acc := by
